@@ -81,6 +81,17 @@ pub fn verif_take_caught<'a, S>(env: &'a mut Env<S>) -> (r: Option<(signal::Numb
             taken_commands: old(env).mon@.taken_commands + (if r matches Some((n, st)) && st.action is Command { 1nat } else { 0nat }),
             ..old(env).mon@ })
 { unimplemented!() }
+/// TrapSet::take_signal_if_caught (unit trap): the state of THIS signal if it is pending, pending flag cleared
+#[verifier::external_body]
+pub fn verif_take_if_caught<'a, S>(env: &'a mut Env<S>, signal: signal::Number) -> (r: Option<&'a TrapState>)
+    ensures
+        r matches Some(st) ==> (st.action is Command ==> st.origin is User),
+        final(env).mon@ == (Mon {
+            wrong: old(env).mon@.wrong || old(env).mon@.owed is Some,
+            owed: (match r { Some(st) => (match st.action { Action::Command(c) => Some((signal, c.verif_id)), _ => None }), None => None }),
+            taken_commands: old(env).mon@.taken_commands + (if r matches Some(st) && st.action is Command { 1nat } else { 0nat }),
+            ..old(env).mon@ })
+{ unimplemented!() }
 /// super::run_trap: runs the command of one trap action (any result)
 #[verifier::external_body]
 pub fn run_trap<S>(env: &mut Env<S>, cond: Condition, code: Rc<Code>, origin: Location) -> (r: Result)
